@@ -104,7 +104,7 @@ fn gen_leaf(r: &mut Rng, cfg: &TreeCfg, parent_n: usize, in_ma: bool, need_pos: 
 }
 
 fn positive_kinds() -> &'static [K] {
-    &[K::Sma, K::Ema, K::Alma, K::AlmaCustom, K::Min, K::Max, K::Cumulative, K::EmaAlpha, K::Gte, K::Lte]
+    &[K::Sma, K::Ema, K::Alma, K::Min, K::Max, K::Cumulative, K::EmaAlpha, K::Gte, K::Lte]
 }
 
 /// Generate a tree of depth <= depth_left (counting view nodes, not leaves).
